@@ -33,7 +33,8 @@ def cpcTabs : Cpc.Tabs :=
               perm := fun p c => (cpcPermArr.getD p #[]).getD c 0 },
     wire := { serialVersion := DSGen.cpc_SERIAL_VERSION, family := DSGen.cpc_FAMILY,
               flagCompressed := DSGen.cpc_FLAG_IS_COMPRESSED, flagHip := DSGen.cpc_FLAG_HAS_HIP,
-              flagTable := DSGen.cpc_FLAG_HAS_TABLE, flagWindow := DSGen.cpc_FLAG_HAS_WINDOW } }
+              flagTable := DSGen.cpc_FLAG_HAS_TABLE, flagWindow := DSGen.cpc_FLAG_HAS_WINDOW,
+              emptyKxpIsK := DSGen.cpc_DESER_EMPTY_KXP_IS_K } }
 
 def main (args : List String) : IO UInt32 := do
   match args with
